@@ -7,7 +7,10 @@ import ast
 import itertools
 
 from sa.report import AnalysisError
+from sa import reach
+from sa.cfg import CFG
 from sa.srcmodel import unparse, walk_no_nested, calls_in, dotted
+from sa.tables import const_dispatch
 
 MFL = 'pharmpy.tools.mfl'
 ODES = 'pharmpy.modeling.odes'
@@ -71,13 +74,17 @@ def run(chk, repo, tier):
         fm = repo.module(f'{MFL}.feature.{cat}')
         ff = fm.functions.get('features')
         setters = {}
-        for n in ast.walk(ff.node):
-            if isinstance(n, ast.If) and isinstance(n.test, ast.Compare) and isinstance(n.test.comparators[0], ast.Constant):
-                ys = [x for s_ in n.body for x in ast.walk(s_) if isinstance(x, ast.Yield)]
-                if ys and isinstance(ys[0].value, ast.Tuple):
-                    tgt = ys[0].value.elts[1]
-                    tn = tgt.id if isinstance(tgt, ast.Name) else (unparse(tgt.args[0]) if isinstance(tgt, ast.Call) else None)
-                    setters[n.test.comparators[0].value] = tn
+        # mode string -> setter, from the if-chain (`yield (KIND, mode.name), setter`) or from a table lookup
+        for mode_, vars_ in const_dispatch(ff.node, fm).items():
+            tgt = None
+            y = vars_.get('<yield>')
+            if isinstance(y, ast.Tuple) and len(y.elts) == 2:
+                tgt = y.elts[1]
+            elif '<lookup>' in vars_:
+                tgt = vars_['<lookup>']
+            if tgt is not None and isinstance(mode_, str):
+                setters[mode_] = tgt.id if isinstance(tgt, ast.Name) else (
+                    unparse(tgt.args[0]) if isinstance(tgt, ast.Call) and tgt.args else None)
         if len(setters) < 4:
             raise AnalysisError(f'T1: only {len(setters)} setters found for {cat}')
         for mode, sfn in sorted(setters.items()):
@@ -106,14 +113,17 @@ def run(chk, repo, tier):
     atoms_def = {}
     formulas = {}
     for name, f in dets.items():
-        defs = {n.targets[0].id: unparse(n.value) for n in walk_no_nested(f.node) if isinstance(n, ast.Assign)
-                and isinstance(n.targets[0], ast.Name)}
-        ret = [n.value for n in f.node.body if isinstance(n, ast.Return)]
+        ret = [n for n in f.node.body if isinstance(n, ast.Return) and n.value is not None]
         if not ret:
             raise AnalysisError(f'{name}: final return not found')
-        formulas[name] = ret[-1]
-        for a in names(ret[-1]):
-            atoms_def.setdefault(a, {})[name] = defs.get(a)
+        formulas[name] = ret[-1].value
+        # the definition of an atom with its local temporaries resolved (independent of how the computation is split
+        # into locals / helpers): `odes.t in odes.get_flow(odes.central_compartment, output).free_symbols`
+        cfg_ = CFG(f.node)
+        rid = reach.node_of(cfg_, ret[-1])
+        for a in names(ret[-1].value):
+            e = reach.expand_expr(cfg_, rid, ast.Name(id=a, ctx=ast.Load()))
+            atoms_def.setdefault(a, {})[name] = None if isinstance(e, ast.Name) and e.id == a else unparse(e)
     atoms = sorted(atoms_def)
     for a, per in atoms_def.items():
         vals = {v for v in per.values()}
